@@ -250,6 +250,27 @@ func plan(prog *load.Program, literals bool) (map[string][]edit, []string, []str
 				if h == nil || h.pk != pk {
 					return true
 				}
+				// `return h(a) && h(b)` / `return h(a) || h(b)`: first give each call a statement of its own
+				// (`if !h(a) { return false }; return h(b)` has the same short-circuit meaning); the calls are inlined in
+				// the next round
+				if len(stack) >= 3 {
+					if be, isBin := stack[len(stack)-2].(*ast.BinaryExpr); isBin && (be.Op == token.LAND || be.Op == token.LOR) {
+						if rs, isRet := stack[len(stack)-3].(*ast.ReturnStmt); isRet && len(rs.Results) == 1 && rs.Results[0] == ast.Expr(be) {
+							x := string(src[tf.Offset(be.X.Pos()):tf.Offset(be.X.End())])
+							y := string(src[tf.Offset(be.Y.Pos()):tf.Offset(be.Y.End())])
+							nx := "!(" + x + ")"
+							if _, isCall := ast.Unparen(be.X).(*ast.CallExpr); isCall {
+								nx = "!" + x
+							}
+							txt := "if " + nx + " {\nreturn false\n}\nreturn " + y
+							if be.Op == token.LOR {
+								txt = "if " + x + " {\nreturn true\n}\nreturn " + y
+							}
+							edits[fname] = append(edits[fname], edit{start: tf.Offset(rs.Pos()), end: tf.Offset(rs.End()), text: txt})
+							return true
+						}
+					}
+				}
 				e, why := inlineCall(prog, pk, f, src, tf, stack, call, h, literals)
 				if why != "" {
 					left = append(left, fmt.Sprintf("%s: call of %s left alone: %s", prog.Rel(call.Pos()), h.obj.Name(), why))
